@@ -53,6 +53,39 @@ func (c *ctx) ref() {
 	}
 	c.oneReplyPerRequest()
 	c.secretsInLogs(d)
+	c.sinkLedger()
+}
+
+// sinkLedger is the content-based half of C12, independent of which connection's window
+// a record falls into: every request acknowledged with SUCCESS needs a sink record of its
+// own that decodes to exactly that request.
+func (c *ctx) sinkLedger() {
+	if len(c.acctOK) == 0 {
+		return
+	}
+	var recs []acctRecord
+	for _, e := range c.r.Events {
+		if e.Kind == "sink" {
+			var rec acctRecord
+			if json.Unmarshal([]byte(e.S), &rec) == nil {
+				recs = append(recs, rec)
+			}
+		}
+	}
+	used := make([]bool, len(recs))
+	for _, rq := range c.acctOK {
+		found := false
+		for i := range recs {
+			if !used[i] && recordEquals(recs[i], rq) {
+				used[i], found = true, true
+				break
+			}
+		}
+		if !found {
+			c.v("C12/acknowledged-without-own-record", "an accounting request (user %q port %q args %q) was answered SUCCESS but no sink record of its own decodes to it (%d records, %d acknowledged requests in the run)", rq.User, rq.Port, rq.Args, len(recs), len(c.acctOK))
+			return
+		}
+	}
 }
 
 // docIndexFor returns the index of the configuration document in force when the
@@ -226,6 +259,7 @@ func (c *ctx) refConn(d model.Doc, i int) {
 			if k < len(w.invs) {
 				// a handler ran for the rejected packet or for one behind it
 				if w.invs[k].H == pr.H {
+					c.vs("C07/rejected-request-handled", pr.Exp.Why, "conn %d: packet %s must be rejected (%s) but a handler ran for it", id, hstr(pr.H), pr.Exp.Why)
 					if pr.Exp.Verdict == "terminate" {
 						c.vs("C08/dispatched-after-violation", pr.Exp.Why, "conn %d: packet %s violates the sequence rules (%s) but a handler ran", id, hstr(pr.H), pr.Exp.Why)
 					} else {
@@ -385,6 +419,9 @@ func (c *ctx) checkRefReply(id int, pr plan.RefPred, rp model.Packet, srvKey []b
 		}
 		if v.Status == model.AcctSuccess {
 			c.checkSink(id, pr, inv, w)
+			if rq, err := model.DecodeAcctRequest(pr.Body); err == nil {
+				c.acctOK = append(c.acctOK, rq)
+			}
 		}
 	}
 }
@@ -483,10 +520,28 @@ func (c *ctx) checkSink(id int, pr plan.RefPred, inv invocation, w winfo) {
 	}
 }
 
-// overlapping: another connection's handler ran inside this invocation's window.
+// overlapping: some other connection's handler invocation overlaps this invocation's
+// window (then records in the window cannot be attributed by position, only by content).
 func (c *ctx) overlapping(inv invocation, end int) bool {
+	open := map[int]int{} // conn -> Seq of its open invoke
 	for _, e := range c.r.Events {
-		if e.Seq > inv.Seq && e.Seq < end && e.Kind == "invoke" && e.Conn != inv.Conn {
+		if e.Conn == inv.Conn || e.Conn == 0 {
+			continue
+		}
+		switch e.Kind {
+		case "invoke":
+			open[e.Conn] = e.Seq
+		case "invoke-end":
+			if st, ok := open[e.Conn]; ok {
+				if st < end && e.Seq > inv.Seq {
+					return true
+				}
+				delete(open, e.Conn)
+			}
+		}
+	}
+	for _, st := range open {
+		if st < end {
 			return true
 		}
 	}
